@@ -6,11 +6,50 @@ import (
 	"math/rand"
 	"sync"
 	"time"
+
+	jsonrpc "github.com/filecoin-project/go-jsonrpc"
 )
 
 func init() {
 	scenarios["c02.perm"] = scC02Perm
 	scenarios["c02.stress"] = scC02Stress
+	scenarios["c02.badwrite"] = scC02BadWrite
+}
+
+// c02.badwrite: while n calls are in flight the application issues a request that cannot be encoded (raw params that are not
+// JSON). Whatever happens to that request, the calls in flight are not its business: each still gets its own answer.
+func scC02BadWrite(w *World, a Args, rng *rand.Rand) error {
+	applyDelays(w, a)
+	n := a.Int("n", 3)
+	c, err := w.NewClient(ClientOpts{Name: "A", NoPing: true})
+	if err != nil {
+		return err
+	}
+	var wg sync.WaitGroup
+	for i := 1; i <= n; i++ {
+		w.Plan(i, &Plan{Gated: true})
+		wg.Add(1)
+		go func(i int) { defer wg.Done(); c.Call(context.Background(), "unary", i) }(i)
+	}
+	for i := 1; i <= n; i++ {
+		w.WaitRunning(i, time.Second)
+	}
+	for k := 0; k < a.Int("bad", 1); k++ {
+		ctx, cancel := context.WithTimeout(context.Background(), 50*time.Millisecond)
+		go func() { defer cancel(); c.API.Raw(ctx, jsonrpc.RawParams("{not json")) }() // its own fate is not judged
+	}
+	time.Sleep(10 * time.Millisecond)
+	for _, i := range rng.Perm(n) {
+		w.Release(i + 1)
+		time.Sleep(time.Duration(rng.Intn(300)) * time.Microsecond)
+	}
+	done := make(chan struct{})
+	go func() { wg.Wait(); close(done) }()
+	waitCh(done, patience(3*time.Second))
+	w.Plan(50, &Plan{})
+	c.CallT("unary", 50, patience(2*time.Second))
+	w.Quiesce(c, 1000, 2*time.Second)
+	return nil
 }
 
 // applyDelays installs seeded schedule perturbation at the hook points named in args["delay"] (probability p).
